@@ -23,6 +23,8 @@ package main
 
 import (
 	"bytes"
+	"go/constant"
+	"regexp"
 	_ "embed"
 	"fmt"
 	"go/ast"
@@ -293,6 +295,10 @@ func inlineRound(pkgs []*packages.Package, overlay map[string][]byte, seq *int) 
 				if n == il.usesOf(h) {
 					if _, isSpec := h.def.(*ast.ValueSpec); !isSpec {
 						blank := strings.Repeat("\n", strings.Count(string(w.src[st:en]), "\n"))
+						// the blank use left by an earlier round goes with the definition
+						if tail := "; _ = " + h.name; strings.HasPrefix(string(w.src[en:]), tail) {
+							en += len(tail)
+						}
 						applied = append(applied, textEdit{start: st, end: en, text: blank})
 						continue
 					}
@@ -594,6 +600,13 @@ func asIf(s ast.Stmt) *ast.IfStmt {
 
 // rewriteStmt recognises the statement shape and produces the replacement text.
 func (il *inliner) rewriteStmt(f *ast.File, encl *ast.FuncDecl, st ast.Stmt, src []byte, tf *token.File) (string, bool) {
+	if text, ok := il.rewriteStmtDirect(f, encl, st, src, tf); ok {
+		return text, true
+	}
+	return il.hoistFirstCall(f, encl, st, src, tf)
+}
+
+func (il *inliner) rewriteStmtDirect(f *ast.File, encl *ast.FuncDecl, st ast.Stmt, src []byte, tf *token.File) (string, bool) {
 	info := il.pk.TypesInfo
 	line := il.fset.PositionFor(st.Pos(), true).Line
 	fname := il.fset.PositionFor(st.Pos(), true).Filename
@@ -702,7 +715,23 @@ func (il *inliner) rewriteStmt(f *ast.File, encl *ast.FuncDecl, st ast.Stmt, src
 		return il.assignForm(f, c, h, lhs, true, pin, fname, line)
 	case *ast.IfStmt:
 		if x.Init != nil {
-			return "", false
+			// `if v := h(a…); COND {…}` whose test is of no threadable form: the binding is inlined as an
+			// assignment in a block of its own, the test follows unchanged
+			as, isAs := x.Init.(*ast.AssignStmt)
+			if !isAs || len(as.Rhs) != 1 || as.Tok != token.DEFINE {
+				return "", false
+			}
+			c, h := il.helperCall(as.Rhs[0])
+			if h == nil || h.self(encl, st) {
+				return "", false
+			}
+			text, ok := il.assignForm(f, c, h, as.Lhs, true, pin, fname, line)
+			if !ok {
+				return "", false
+			}
+			condPos := il.fset.PositionFor(x.Cond.Pos(), true)
+			rest := "if " + string(src[tf.Offset(x.Cond.Pos()):tf.Offset(x.End())])
+			return pin("{") + "\n" + text + "\n" + fmt.Sprintf("//line %s:%d\n", condPos.Filename, condPos.Line) + rest + "\n" + pin("}"), true
 		}
 		cond := unparen(x.Cond)
 		neg := false
@@ -801,6 +830,113 @@ func (il *inliner) rewriteStmt(f *ast.File, encl *ast.FuncDecl, st ast.Stmt, src
 	return "", false
 }
 
+// hoistFirstCall: a helper call nested in a larger statement — `xs = append(xs, h(a))`,
+// `return h(a), nil`, `f(h(a))` — is bound to a fresh local first when it is the lexically first call
+// of the statement (Go evaluates calls left to right, so no other call can observe the move), is not
+// under `&&`/`||` or inside a function literal, and the statement assigns only to plain variables.
+// The binding is then inlined as an assignment.
+func (il *inliner) hoistFirstCall(f *ast.File, encl *ast.FuncDecl, st ast.Stmt, src []byte, tf *token.File) (string, bool) {
+	info := il.pk.TypesInfo
+	switch x := st.(type) {
+	case *ast.ExprStmt, *ast.ReturnStmt:
+	case *ast.AssignStmt:
+		for _, l := range x.Lhs {
+			if !simpleOperand(l) {
+				return "", false
+			}
+		}
+	case *ast.DeclStmt:
+	default:
+		return "", false
+	}
+	var first *ast.CallExpr
+	guarded := map[*ast.CallExpr]bool{}
+	var walk func(n ast.Node, underShort bool)
+	walk = func(n ast.Node, underShort bool) {
+		ast.Inspect(n, func(m ast.Node) bool {
+			switch y := m.(type) {
+			case *ast.FuncLit:
+				return false
+			case *ast.BinaryExpr:
+				if y.Op == token.LAND || y.Op == token.LOR {
+					walk(y.X, underShort)
+					walk(y.Y, true)
+					return false
+				}
+			case *ast.CallExpr:
+				tv := info.Types[y.Fun]
+				if tv.IsType() || tv.IsBuiltin() {
+					return true
+				}
+				if underShort {
+					guarded[y] = true
+				}
+				if first == nil || y.Pos() < first.Pos() {
+					// pre-order visits the outer call before its arguments, but the arguments' calls are
+					// evaluated first: the innermost-leftmost call is found by position of evaluation,
+					// i.e. the call whose arguments contain no other call and that starts earliest
+					first = y
+				}
+			}
+			return true
+		})
+	}
+	walk(st, false)
+	if first == nil {
+		return "", false
+	}
+	// descend to the call evaluated first: among first's function operand and arguments, the earliest call
+	for {
+		var inner *ast.CallExpr
+		for _, part := range append([]ast.Expr{first.Fun}, first.Args...) {
+			ast.Inspect(part, func(m ast.Node) bool {
+				if inner != nil {
+					return false
+				}
+				switch y := m.(type) {
+				case *ast.FuncLit:
+					return false
+				case *ast.CallExpr:
+					tv := info.Types[y.Fun]
+					if tv.IsType() || tv.IsBuiltin() {
+						return true
+					}
+					inner = y
+					return false
+				}
+				return true
+			})
+			if inner != nil {
+				break
+			}
+		}
+		if inner == nil {
+			break
+		}
+		first = inner
+	}
+	if guarded[first] {
+		return "", false
+	}
+	c, h := il.helperCall(first)
+	if h == nil || h.self(encl, st) || h.sig.Results().Len() != 1 {
+		return "", false
+	}
+	// a method value receiver with calls in it (x().h()) would be evaluated before: helperCall's
+	// receiver is part of c.Fun and was searched above
+	line := il.fset.PositionFor(st.Pos(), true).Line
+	fname := il.fset.PositionFor(st.Pos(), true).Filename
+	pin := func(t string) string { return pinLines(t, fname, line) }
+	il.n++
+	tmp := fmt.Sprintf("ſ%dh", il.n)
+	text, ok := il.assignForm(f, c, h, []ast.Expr{ast.NewIdent(tmp)}, true, pin, fname, line)
+	if !ok {
+		return "", false
+	}
+	rest := string(src[tf.Offset(st.Pos()):tf.Offset(c.Pos())]) + tmp + string(src[tf.Offset(c.End()):tf.Offset(st.End())])
+	return text + "\n" + fmt.Sprintf("//line %s:%d\n", fname, line) + rest, true
+}
+
 func enclosingFuncLit(fd *ast.FuncDecl, st ast.Stmt) *ast.FuncLit {
 	var best *ast.FuncLit
 	ast.Inspect(fd.Body, func(n ast.Node) bool {
@@ -843,6 +979,9 @@ func (il *inliner) assignForm(f *ast.File, c *ast.CallExpr, h *helper, lhs []ast
 	}
 	il.n++
 	end := fmt.Sprintf("ſ%dE", il.n)
+	// every return copies its own results into the targets (a store into a field then has one
+	// instruction per return, as hand-written code would)
+	nsites := 0
 	body, ok := il.body(f, c, h, func(r *ast.ReturnStmt) []ast.Stmt {
 		if len(r.Results) == 0 {
 			return nil
@@ -850,17 +989,22 @@ func (il *inliner) assignForm(f *ast.File, c *ast.CallExpr, h *helper, lhs []ast
 		if len(r.Results) != len(temps) && len(r.Results) != 1 {
 			return nil
 		}
+		nsites++
 		return []ast.Stmt{
 			&ast.AssignStmt{Lhs: temps, Tok: token.ASSIGN, Rhs: r.Results},
-			&ast.BranchStmt{Tok: token.GOTO, Label: ast.NewIdent(end)},
+			&ast.BranchStmt{Tok: token.GOTO, Label: ast.NewIdent(fmt.Sprintf("%sS%d", end, nsites))},
 		}
 	})
 	if !ok {
 		return "", false
 	}
 	il.note(h, "assignment", fname, line)
+	var tail strings.Builder
+	for k := 1; k <= nsites; k++ {
+		fmt.Fprintf(&tail, "%sS%d:\n%s\ngoto %s\n", end, k, copyTxt, end)
+	}
 	// arguments are evaluated before the new variables come into scope (x := h(x) reads the outer x)
-	return pin(pre + declsTxt + "{\n" + binds + body + "\n}\ngoto " + end + "\n" + end + ":\n" + copyTxt), true
+	return pin(pre + declsTxt + "{\n" + binds + body + "\n}\ngoto " + end + "\n" + tail.String() + end + ":"), true
 }
 
 // bodyGlobals: the names through which the helper's body refers to package-level objects, imported
@@ -977,12 +1121,21 @@ func (il *inliner) rewriteAssignIf(f *ast.File, encl *ast.FuncDecl, as *ast.Assi
 			_, n := info.Uses[id].(*types.Nil)
 			return n
 		}
+		isEmptyStr := func(e ast.Expr) bool {
+			bl, ok := e.(*ast.BasicLit)
+			return ok && bl.Kind == token.STRING && (bl.Value == `""` || bl.Value == "``")
+		}
 		var other ast.Expr
+		str := false
 		switch {
 		case isNil(r):
 			other = l
 		case isNil(l):
 			other = r
+		case isEmptyStr(r):
+			other, str = l, true
+		case isEmptyStr(l):
+			other, str = r, true
 		default:
 			return "", false
 		}
@@ -991,9 +1144,14 @@ func (il *inliner) rewriteAssignIf(f *ast.File, encl *ast.FuncDecl, as *ast.Assi
 			return "", false
 		}
 		cid = id
-		if x.Op == token.NEQ {
+		switch {
+		case str && x.Op == token.NEQ:
+			form = "nonempty"
+		case str:
+			form = "empty"
+		case x.Op == token.NEQ:
 			form = "nonnil"
-		} else {
+		default:
 			form = "nil"
 		}
 	}
@@ -1036,10 +1194,95 @@ func (il *inliner) rewriteAssignIf(f *ast.File, encl *ast.FuncDecl, as *ast.Assi
 	lc, lt, lf, le := fmt.Sprintf("ſ%dC", il.n), fmt.Sprintf("ſ%dT", il.n), fmt.Sprintf("ſ%dF", il.n), fmt.Sprintf("ſ%dE", il.n)
 	usedC, usedT, usedF := false, false, false
 	jump := func(l string) ast.Stmt { return &ast.BranchStmt{Tok: token.GOTO, Label: ast.NewIdent(l)} }
+	// a package-level error variable named Err… / EOF (a sentinel) is taken to be non-nil
+	sentinel := func(id *ast.Ident) bool {
+		v, ok := info.Uses[id].(*types.Var)
+		if !ok || v.IsField() || v.Pkg() == nil || v.Parent() != v.Pkg().Scope() {
+			return false
+		}
+		if !types.Identical(v.Type(), types.Universe.Lookup("error").Type()) {
+			return false
+		}
+		n := v.Name()
+		return n == "EOF" || (strings.HasPrefix(n, "Err") && len(n) > 3 && n[3] >= 'A' && n[3] <= 'Z')
+	}
+	// guardedNonNil: the identifier is returned inside the body of `if id != nil { … }` of the helper and
+	// is not assigned in that body: it is non-nil there
+	parents := map[ast.Node]ast.Node{}
+	{
+		var stack []ast.Node
+		ast.Inspect(h.body, func(n ast.Node) bool {
+			if n == nil {
+				stack = stack[:len(stack)-1]
+				return true
+			}
+			if len(stack) > 0 {
+				parents[n] = stack[len(stack)-1]
+			}
+			stack = append(stack, n)
+			return true
+		})
+	}
+	guardedNonNil := func(id *ast.Ident) bool {
+		obj := info.Uses[id]
+		if obj == nil {
+			return false
+		}
+		var child ast.Node = id
+		for p := parents[id]; p != nil; child, p = p, parents[p] {
+			ifs, ok := p.(*ast.IfStmt)
+			if !ok || child != ast.Node(ifs.Body) {
+				continue
+			}
+			be, ok := unparen(ifs.Cond).(*ast.BinaryExpr)
+			if !ok || be.Op != token.NEQ {
+				continue
+			}
+			l, lok := unparen(be.X).(*ast.Ident)
+			r, rok := unparen(be.Y).(*ast.Ident)
+			if !lok || !rok {
+				continue
+			}
+			var tested *ast.Ident
+			if _, isNil := info.Uses[r].(*types.Nil); isNil {
+				tested = l
+			} else if _, isNil := info.Uses[l].(*types.Nil); isNil {
+				tested = r
+			}
+			if tested == nil || info.Uses[tested] != obj {
+				continue
+			}
+			assigned := false
+			ast.Inspect(ifs.Body, func(n ast.Node) bool {
+				if as, ok := n.(*ast.AssignStmt); ok {
+					for _, lhs := range as.Lhs {
+						if li, ok := unparen(lhs).(*ast.Ident); ok && (info.Uses[li] == obj || info.Defs[li] == obj) {
+							assigned = true
+						}
+					}
+				}
+				if u, ok := n.(*ast.UnaryExpr); ok && u.Op == token.AND {
+					if li, ok := unparen(u.X).(*ast.Ident); ok && info.Uses[li] == obj {
+						assigned = true
+					}
+				}
+				return true
+			})
+			return !assigned
+		}
+		return false
+	}
 	classify := func(e ast.Expr) string {
 		e = unparen(e)
 		switch x := e.(type) {
+		case *ast.SelectorExpr:
+			if sentinel(x.Sel) {
+				return "nonnil"
+			}
 		case *ast.Ident:
+			if sentinel(x) || guardedNonNil(x) {
+				return "nonnil"
+			}
 			switch o := info.Uses[x].(type) {
 			case *types.Nil:
 				return "nil"
@@ -1052,18 +1295,66 @@ func (il *inliner) rewriteAssignIf(f *ast.File, encl *ast.FuncDecl, as *ast.Assi
 			if _, ok := unparen(x.X).(*ast.CompositeLit); ok && x.Op == token.AND {
 				return "nonnil"
 			}
+		case *ast.BasicLit:
+			if x.Kind == token.STRING {
+				if x.Value == `""` || x.Value == "``" {
+					return "empty"
+				}
+				return "nonempty"
+			}
 		case *ast.CallExpr:
 			if sel, ok := unparen(x.Fun).(*ast.SelectorExpr); ok {
 				if fn, ok := info.Uses[sel.Sel].(*types.Func); ok {
 					switch fn.FullName() {
 					case "fmt.Errorf", "errors.New":
 						return "nonnil"
+					case "fmt.Sprintf":
+						// a constant format with text outside the verbs yields a non-empty string
+						if len(x.Args) > 0 {
+							if tv, ok := info.Types[x.Args[0]]; ok && tv.Value != nil && tv.Value.Kind() == constant.String {
+								if strings.TrimSpace(sprintfVerbs.ReplaceAllString(constant.StringVal(tv.Value), "")) != "" {
+									return "nonempty"
+								}
+							}
+						}
 					}
 				}
 			}
 		}
 		return ""
 	}
+	// each return gets its own copy of the branch it selects (so no value of the helper merges with
+	// another return's before the caller's test), unless the branches are long or carry labels
+	perSite := true
+	branchLen := int(ifs.Body.End() - ifs.Body.Pos())
+	if ifs.Else != nil {
+		branchLen += int(ifs.Else.End() - ifs.Else.Pos())
+	}
+	nret := 0
+	ast.Inspect(h.body, func(n ast.Node) bool {
+		switch n.(type) {
+		case *ast.FuncLit:
+			return false
+		case *ast.ReturnStmt:
+			nret++
+		}
+		return true
+	})
+	if branchLen > 1200 || nret > 6 {
+		perSite = false
+	}
+	for _, br := range []ast.Node{ifs.Body, ifs.Else} {
+		if br == nil || br == ast.Node((*ast.BlockStmt)(nil)) {
+			continue
+		}
+		ast.Inspect(br, func(n ast.Node) bool {
+			if _, isL := n.(*ast.LabeledStmt); isL {
+				perSite = false
+			}
+			return true
+		})
+	}
+	var sites []string
 	body, ok := il.body(f, c, h, func(r *ast.ReturnStmt) []ast.Stmt {
 		if len(r.Results) == 0 || (len(r.Results) != len(targets) && len(r.Results) != 1) {
 			return nil
@@ -1073,6 +1364,18 @@ func (il *inliner) rewriteAssignIf(f *ast.File, encl *ast.FuncDecl, as *ast.Assi
 		if len(r.Results) == len(targets) {
 			state = classify(r.Results[idx])
 		}
+		if perSite {
+			kind := "C"
+			switch {
+			case state == "":
+			case state == form:
+				kind = "T"
+			case (form == "nonnil" && state == "nil") || (form == "nil" && state == "nonnil") || (form == "true" && state == "false") || (form == "false" && state == "true") || (form == "nonempty" && state == "empty") || (form == "empty" && state == "nonempty"):
+				kind = "F"
+			}
+			sites = append(sites, kind)
+			return []ast.Stmt{asg, jump(fmt.Sprintf("%sS%d", le, len(sites)))}
+		}
 		switch {
 		case state == "":
 			usedC = true
@@ -1080,7 +1383,7 @@ func (il *inliner) rewriteAssignIf(f *ast.File, encl *ast.FuncDecl, as *ast.Assi
 		case state == form:
 			usedT = true
 			return []ast.Stmt{asg, jump(lt)}
-		case (form == "nonnil" && state == "nil") || (form == "nil" && state == "nonnil") || (form == "true" && state == "false") || (form == "false" && state == "true"):
+		case (form == "nonnil" && state == "nil") || (form == "nil" && state == "nonnil") || (form == "true" && state == "false") || (form == "false" && state == "true") || (form == "nonempty" && state == "empty") || (form == "empty" && state == "nonempty"):
 			usedF = true
 			return []ast.Stmt{asg, jump(lf)}
 		}
@@ -1108,6 +1411,26 @@ func (il *inliner) rewriteAssignIf(f *ast.File, encl *ast.FuncDecl, as *ast.Assi
 		b.WriteString(pin("{") + "\n")
 	}
 	b.WriteString(pin(pre+declsTxt+"{\n"+binds+body+"\n}") + "\n")
+	if perSite {
+		for k, kind := range sites {
+			b.WriteString(pin(fmt.Sprintf("%sS%d:\n%s", le, k+1, copyTxt)) + "\n")
+			switch kind {
+			case "T":
+				b.WriteString(thenTxt + "\n")
+			case "F":
+				b.WriteString(elseTxt + "\n")
+			default:
+				b.WriteString(pin("if "+condTxt+" {") + "\n" + thenTxt + "\n" + pin("} else {") + "\n" + elseTxt + "\n" + pin("}") + "\n")
+			}
+			b.WriteString(pin("goto "+le) + "\n")
+		}
+		b.WriteString(pin("goto " + le + "\n" + le + ":"))
+		if initForm {
+			b.WriteString("\n" + pin("}"))
+		}
+		il.note(h, "assignment+test", fname, line)
+		return b.String(), true
+	}
 	lt2, lf2 := lt+"x", lf+"x"
 	if usedC {
 		b.WriteString(pin(lc+":\n"+copyTxt+"\nif "+condTxt+" {\ngoto "+lt2+"\n}\ngoto "+lf2) + "\n")
@@ -1522,6 +1845,8 @@ func copyBlock(b *ast.BlockStmt) *ast.BlockStmt {
 	}
 	return cpBlock(b)
 }
+
+var sprintfVerbs = regexp.MustCompile(`%[-+# 0-9.*\[\]]*[a-zA-Z%]`)
 
 // pinLines prefixes every line of s with a //line directive naming (fname, line).
 func pinLines(s, fname string, line int) string {
